@@ -28,6 +28,9 @@ CHECKS = {
  "C11": dict(engine="lruconc", design="5/C11", technique="TLA+ LruConc spec (two critical sections per call), TLC exhaustive over interleavings + edge-cover replay with hand-driven tasks + TLC trace validation against LruObs",
    text="spec/LruConc.tla splits __call__ at its single await (lookup/count, then re-check/evict/insert) with failing and cancelled calls, cache_clear and cache_discard interleaved; TLC checks SizeBound/NoDup on every interleaving of 2..4 tasks; every transition is replayed into the real cache (cache_info and task states compared per step, then drain and a sequential probe of every key), and recorded events (values with invocation ids, cache_info samples) of drifted replays, a sample of the others and random schedules are validated by TLC against spec/LruObs.tla (value provenance, hits+misses=calls, misses=invocations, currsize<=maxsize, nothing cached by failed/cancelled calls).",
    note="Trusted: TLC, harness. Statistics are counted since the last cache_clear (the only reading under which the sentence can hold with interleaved clears)."),
+ "C12": dict(engine="cprop", design="5/C12", technique="TLA+ CachedProp spec (slot/placeholder/lock protocol), TLC exhaustive over histories and interleavings + edge-cover replay + TLC trace validation against CPropObs",
+   text="spec/CachedProp.tla models the descriptor, the placeholder's _await_impl (check, lock, re-check, getter, store), deletion with re-entry through the descriptor, failing getters and cancellation, one lock per placeholder; TLC checks one-getter-per-placeholder/instance, at-most-once, genuine values and lock-free-at-rest for sequential histories (1 task, <=5 operations, 2 instances, del) and for 2..4 concurrent awaiters with and without lock; every transition is replayed into the real cached_property (slot, task states, values, lock holders compared per step) and recorded events are validated by TLC against spec/CPropObs.tla (getter only runs when nothing is cached, value provenance, value-at-access semantics, nothing cached by failed/cancelled runs, locks free at rest).",
+   note="Trusted: TLC, harness (instrumented lock type, one instance per placeholder). Without a lock type placeholders are compared modulo their identity."),
 }
 
 def main():
